@@ -27,18 +27,43 @@ pub const P_CACHE: u8 = 1;
 /// histories containing it; C05 still requires every handle to be the offset at which its node begins)
 pub const P_CACHE_DEFAULT: u8 = 2;
 pub fn proc_shape(nres: u16, parent_sel: u16, res_sel: u16, opts: u16) -> u16 {
-    nres | (parent_sel << 2) | (res_sel << 5) | (opts << 8)
+    // nres code: bits 0-1; parent selector (0 none, k = sel(k-1), 15 = a handle issued by ANOTHER table): bits 2-5;
+    // resource selector: bits 6-8; option mask: bits 9-13
+    nres | (parent_sel << 2) | (res_sel << 6) | (opts << 9)
 }
 pub fn cache_shape(setmask: u16, next_sel: u16) -> u16 {
     setmask | (next_sel << 8)
 }
-/// bit 11 of a cache shape: apply the setters in descending instead of ascending order (the result must not depend on it)
-pub const CACHE_REVERSED: u16 = 1 << 11;
-/// bit 12 of a cache shape: every selected setter is applied twice with the same argument (a repeated write changes nothing)
-pub const CACHE_TWICE: u16 = 1 << 12;
+/// bit 12 of a cache shape: apply the setters in descending instead of ascending order (the result must not depend on it)
+pub const CACHE_REVERSED: u16 = 1 << 12;
+/// bit 13 of a cache shape: every selected setter is applied twice with the same argument (a repeated write changes nothing)
+pub const CACHE_TWICE: u16 = 1 << 13;
+/// bit 14 of a cache shape: every selected plain-value setter (and next_level) is first called with a DIFFERENT value
+/// (for next_level: the first cache's handle), then with the real one: the last call wins
+pub const CACHE_OVERWRITE: u16 = 1 << 14;
 pub fn real_cache(f: &Fill, setmask: u16, next: Option<&pptt::CacheHandle>) -> pptt::CacheNode {
+    real_cache_over(f, setmask, next, None)
+}
+pub fn real_cache_over(f: &Fill, setmask: u16, next: Option<&pptt::CacheHandle>, earlier: Option<&pptt::CacheHandle>) -> pptt::CacheNode {
     use pptt::{AllocationType as A, CacheType as C, WritePolicy as P};
     let mut b = pptt::CacheNodeBuilder::default();
+    if setmask & CACHE_OVERWRITE != 0 {
+        let g = Fill::b(3);
+        if let (Some(e), Some(_)) = (earlier, next) {
+            b = b.next_level(e);
+        }
+        for bit in [0u16, 1, 2, 6, 7] {
+            if setmask & (1 << bit) != 0 {
+                b = match bit {
+                    0 => b.size(g.u32(0)),
+                    1 => b.sets(g.u32(1)),
+                    2 => b.associativity(g.u8(2)),
+                    6 => b.line_size(g.u16(6)),
+                    _ => b.id(g.u32(7)),
+                };
+            }
+        }
+    }
     if let Some(h) = next {
         b = b.next_level(h);
     }
@@ -81,6 +106,17 @@ pub fn ref_cache(w: &mut W, f: &Fill, setmask: u16, next: u32) {
     w.u8(1).u8(28).u16(0).u32((setmask & 0xff) as u32).u32(next);
     w.u32(if m(1) { f.u32(0) } else { 0 }).u32(if m(2) { f.u32(1) } else { 0 });
     w.u8(if m(4) { f.u8(2) } else { 0 }).u8(attr).u16(if m(64) { f.u16(6) } else { 0 }).u32(if m(128) { f.u32(7) } else { 0 });
+}
+/// a processor handle issued by another, larger PPTT (handles are plain offsets: the crate stores what it is given; the
+/// value names no node of the table under test, so C05 does not resolve it)
+pub const FOREIGN_PARENT_OFFSET: u32 = 36 + 20 * 45;
+pub fn foreign_parent() -> pptt::ProcessorHandle {
+    let mut t = pptt::PPTT::new(*b"OTHER1", *b"OTHERTBL", 1);
+    let mut h = t.add_processor(pptt::ProcessorNode::new(None, 0));
+    for i in 1..=45u32 {
+        h = t.add_processor(pptt::ProcessorNode::new(None, i));
+    }
+    h
 }
 pub fn real_proc_opts(mut p: pptt::ProcessorNode, opts: u16) -> pptt::ProcessorNode {
     if opts & 1 != 0 {
@@ -181,6 +217,19 @@ impl Table for Pptt {
             ops.push(Op::new(P_PROC, proc_shape(1, 1 + 7, 7, 0x0a), 1));
             v.push((format!("processor[{} resources]", n), ops));
         }
+        // a parent handle issued by another table (offset 936, beyond this table's end), first and between other nodes
+        v.push(("foreign parent first".into(), vec![Op::new(P_PROC, proc_shape(0, 15, 0, 0x1f), 2), Op::new(P_CACHE, cache_shape(0xff, 0), 2), Op::new(P_PROC, proc_shape(1, 1, 7, 0), 1)]));
+        v.push(("foreign parent later".into(), vec![Op::new(P_CACHE, cache_shape(0xff, 0), 2), Op::new(P_PROC, proc_shape(1, 0, 0, 0x1f), 2), Op::new(P_PROC, proc_shape(1, 15, 0, 0x0a), 1), Op::new(P_PROC, proc_shape(0, 1 + 7, 0, 0), 2), Op::new(P_CACHE, cache_shape(0xff, 1), 2)]));
+        // next_level / plain-value setters called twice with different values (the last call wins), for the second, third
+        // and fifth cache of a table (so that the two handles differ in several bits)
+        for k in 1..=5usize {
+            let mut ops: Vec<Op> = (0..k).map(|i| Op::new(P_CACHE, cache_shape(0xff, if i == 0 { 0 } else { 1 + 7 }), 2)).collect();
+            ops.push(Op::new(P_PROC, proc_shape(1, 0, 7, 0x1f), 2));
+            ops.push(Op::new(P_CACHE, cache_shape(0xff, 1 + 7) | CACHE_OVERWRITE, 1));
+            ops.push(Op::new(P_CACHE, cache_shape(0x47, 2) | CACHE_OVERWRITE | CACHE_REVERSED, 2));
+            ops.push(Op::new(P_PROC, proc_shape(2, 1, 7, 0), 2));
+            v.push((format!("overwritten setters after {} caches", k), ops));
+        }
         v
     }
     fn summary(&self, img: &[u8], ents: &[Ent]) -> Vec<u64> {
@@ -196,8 +245,9 @@ impl Table for Pptt {
             let f = &op.fill;
             let s = op.shape;
             if op.k == P_PROC {
-                let (nres, psel, rsel, opts) = (f.size().map(|n| n as u16).unwrap_or(cnt(s & 3, 58)), (s >> 2) & 7, (s >> 5) & 7, (s >> 8) & 31);
-                let parent = if psel == 0 { None } else { Some(&ph[sel(psel - 1, ph.len())]) };
+                let (nres, psel, rsel, opts) = (f.size().map(|n| n as u16).unwrap_or(cnt(s & 3, 58)), (s >> 2) & 15, (s >> 6) & 7, (s >> 9) & 31);
+                let foreign = foreign_parent();
+                let parent = if psel == 0 { None } else if psel == 15 { Some(&foreign) } else { Some(&ph[sel(psel - 1, ph.len())]) };
                 let mut p = pptt::ProcessorNode::new(parent, f.u32(0));
                 for r in 0..nres {
                     p = p.add_cache(&ch[sel(rsel, ch.len()).wrapping_add(r as usize) % ch.len()]);
@@ -211,9 +261,9 @@ impl Table for Pptt {
                 seen.push(parse_handle(format!("{:?}", h)));
                 ch.push(h);
             } else {
-                let (mask, nsel) = (s & 0xff, (s >> 8) & 7);
+                let (mask, nsel) = (s & 0xff, (s >> 8) & 15);
                 let next = if nsel == 0 { None } else { Some(&ch[sel(nsel - 1, ch.len())]) };
-                let h = t.add_cache(real_cache(f, mask | (s & (CACHE_REVERSED | CACHE_TWICE)), next));
+                let h = t.add_cache(real_cache_over(f, mask | (s & (CACHE_REVERSED | CACHE_TWICE | CACHE_OVERWRITE)), next, ch.first()));
                 seen.push(parse_handle(format!("{:?}", h)));
                 ch.push(h);
             }
@@ -234,10 +284,10 @@ impl Table for Pptt {
             if op.k == P_PROC {
                 // type 0, length, reserved(2), flags(4), parent(4), ACPI processor id(4), n private resources(4), resources
                 // flags: bit0 physical package, 1 ACPI id valid, 2 thread, 3 leaf, 4 identical implementation
-                let (nres, psel, rsel, opts) = (f.size().map(|n| n as u16).unwrap_or(cnt(s & 3, 58)), (s >> 2) & 7, (s >> 5) & 7, (s >> 8) & 31);
-                let parent = if psel == 0 { 0 } else { out.ents[ph[sel(psel - 1, ph.len())]].off as u32 };
+                let (nres, psel, rsel, opts) = (f.size().map(|n| n as u16).unwrap_or(cnt(s & 3, 58)), (s >> 2) & 15, (s >> 6) & 7, (s >> 9) & 31);
+                let parent = if psel == 0 { 0 } else if psel == 15 { FOREIGN_PARENT_OFFSET } else { out.ents[ph[sel(psel - 1, ph.len())]].off as u32 };
                 w.u8(0).u8(20 + 4 * nres as u8).u16(0).u32(opts as u32).u32(parent).u32(f.u32(0)).u32(nres as u32);
-                if psel != 0 {
+                if psel != 0 && psel != 15 {
                     out.refs.push(RefField { at: o + 8, width: 4, target: ph[sel(psel - 1, ph.len())], what: "parent" });
                 }
                 for r in 0..nres {
@@ -250,7 +300,7 @@ impl Table for Pptt {
                 w.z(28);
                 ch.push(ei);
             } else {
-                let (mask, nsel) = (s & 0xff, (s >> 8) & 7);
+                let (mask, nsel) = (s & 0xff, (s >> 8) & 15);
                 let next = if nsel == 0 { 0 } else { out.ents[ch[sel(nsel - 1, ch.len())]].off as u32 };
                 if nsel != 0 {
                     out.refs.push(RefField { at: o + 8, width: 4, target: ch[sel(nsel - 1, ch.len())], what: "next level cache" });
@@ -305,7 +355,7 @@ impl Table for Pptt {
         } else if k == P_CACHE_DEFAULT {
             vec![0]
         } else {
-            vec![cache_shape(0xff, 0), cache_shape(0xff, 0) | CACHE_REVERSED, cache_shape(0, 0), cache_shape(0xff, 1), cache_shape(0x55, 1), cache_shape(0xaa, 0), cache_shape(0x38, 0) | CACHE_REVERSED, cache_shape(0xff, 0) | CACHE_TWICE, cache_shape(0x38, 0) | CACHE_TWICE | CACHE_REVERSED]
+            vec![cache_shape(0xff, 0), cache_shape(0xff, 0) | CACHE_REVERSED, cache_shape(0, 0), cache_shape(0xff, 1), cache_shape(0x55, 1), cache_shape(0xaa, 0), cache_shape(0x38, 0) | CACHE_REVERSED, cache_shape(0xff, 0) | CACHE_TWICE, cache_shape(0x38, 0) | CACHE_TWICE | CACHE_REVERSED, cache_shape(0xff, 0) | CACHE_OVERWRITE, cache_shape(0xc7, 1) | CACHE_OVERWRITE]
         }
     }
     fn prelude(&self, _k: u8, _shape: u16) -> Vec<Op> {
